@@ -48,6 +48,9 @@ package mint
 //@   loop range(proofs) invariant 0 <= i && i <= len(proofs) && hvs.fails == old(hvs.fails) && hvs.calls >= old(hvs.calls) && (forall j :: 0 <= j && j < i ==> okproof(m, proofs[j]))
 //@   ensures @nofails [C12,C13] err == nil ==> hvs.fails == old(hvs.fails) && hvs.calls >= old(hvs.calls)
 
+// The signature under the active key of the message's amount and the DLEQ proof
+// GenerateDLEQ makes for it (some nonce p): what a wallet will check (C10).
+//@ macro signedby(sig, bm, k) = hexok(bm.B_) && sig.C_ == hexenc(pt.ser(smul(k, pt.parse(hexdec(bm.B_))))) && sig.DLEQ != nil && (exists p Sc :: sig.DLEQ.E == hexenc(sc.ser(sc.frombytes(hashe4(smul(p, pt.G), smul(p, pt.parse(hexdec(bm.B_))), smul(k, pt.G), smul(k, pt.parse(hexdec(bm.B_))))))) && sig.DLEQ.S == hexenc(sc.ser(sadd(p, smulS(sc.frombytes(hashe4(smul(p, pt.G), smul(p, pt.parse(hexdec(bm.B_))), smul(k, pt.G), smul(k, pt.parse(hexdec(bm.B_))))), k)))))
 //@ func (*Mint).signBlindedMessages
 //@   tags C02 C09 C10
 //@   safety C06
@@ -55,7 +58,9 @@ package mint
 //@   ensures @len err == nil ==> len(result) == len(blindedMessages)
 //@   ensures @sum [C02] err == nil ==> sum.sig.amount(seq(result), len(result)) == sum.bm.amount(seq(blindedMessages), len(blindedMessages))
 //@   ensures @pointwise err == nil ==> (forall i :: 0 <= i && i < len(blindedMessages) ==> result[i].Amount == blindedMessages[i].Amount && result[i].Id == m.activeKeyset.Id && blindedMessages[i].Id == m.activeKeyset.Id && result[i].DLEQ != nil)
-//@   loop range(blindedMessages) invariant 0 <= i && i <= len(blindedMessages) && len(blindedSignatures) == len(blindedMessages) && sum.sig.amount(seq(blindedSignatures), i) == sum.bm.amount(seq(blindedMessages), i) && (forall j :: 0 <= j && j < i ==> blindedSignatures[j].Amount == blindedMessages[j].Amount && blindedSignatures[j].Id == m.activeKeyset.Id && blindedMessages[j].Id == m.activeKeyset.Id && blindedSignatures[j].DLEQ != nil)
+//@   ensures @dleq [C10] err == nil ==> (forall i :: 0 <= i && i < len(blindedMessages) ==> (blindedMessages[i].Amount in m.activeKeyset.Keys) && signedby(result[i], blindedMessages[i], sc.of(m.activeKeyset.Keys[blindedMessages[i].Amount].PrivateKey.Key)))
+//@   calls crypto.GenerateDLEQ asserts @dleqwiring [C10] a == k && pk.pt(*C_) == smul(sc.of(a.Key), pk.pt(*B_)) && hexok(msg.B_) && pk.pt(*B_) == pt.parse(hexdec(msg.B_))
+//@   loop range(blindedMessages) invariant 0 <= i && i <= len(blindedMessages) && len(blindedSignatures) == len(blindedMessages) && sum.sig.amount(seq(blindedSignatures), i) == sum.bm.amount(seq(blindedMessages), i) && (forall j :: 0 <= j && j < i ==> blindedSignatures[j].Amount == blindedMessages[j].Amount && blindedSignatures[j].Id == m.activeKeyset.Id && blindedMessages[j].Id == m.activeKeyset.Id && blindedSignatures[j].DLEQ != nil && (blindedMessages[j].Amount in m.activeKeyset.Keys) && signedby(blindedSignatures[j], blindedMessages[j], sc.of(m.activeKeyset.Keys[blindedMessages[j].Amount].PrivateKey.Key)))
 
 //@ func (*Mint).Swap
 //@   tags C01 C02 C06 C15 C12 C07
